@@ -49,9 +49,21 @@ pub fn d3() -> bool {
     direct.is_err() && stored
 }
 
+/// D6: the store actor is gone when the Init message is processed: `BobState::run` returns an error
+/// with `progress` taken; `into_outcome` (called unconditionally by `net::handle_connection`) panics.
+pub fn d6() -> bool {
+    let r = std::panic::catch_unwind(|| {
+        let mut s = crate::verif_incrate::src::ReplaySrc::new(vec![]);
+        crate::net::verif_codec::bob_run::<_, 0>(&mut s);
+    });
+    eprintln!("d6: BobState::run + into_outcome with the store actor gone panicked: {}", r.is_err());
+    r.is_err()
+}
+
 pub fn run(id: &str) -> Option<bool> {
     Some(match id {
         "d3" => d3(),
+        "d6" => d6(),
         _ => return None,
     })
 }
